@@ -21,11 +21,15 @@ class C12(Prop):
     id = "C12"
     level = "other"
     design_ref = "§8 C12"
-    level_text = ("Lean: verified certificate checkers (deletion set of the reported size; remaining profile restricted "
-                  "to the remaining alternatives single-peaked on the returned axis) and verified brute-force optima "
-                  "over all deletion sets. Optimality of the ILP answers rests on the CBC contract and that of the "
-                  "dynamic programme on the Erdélyi-Lackner-Pfandler algorithm: both are compared with the verified "
-                  "brute force on every run (tested, not proved)")
+    level_text = ("Lean: (1) the three ILP constraint systems are modelled and compared with the real python-mip models on every "
+                  "case; their semantics is proved: an integral point is feasible iff the orders (alternatives) whose deletion "
+                  "variable is 0 are single-peaked on the encoded axis (votdel_*, altdel_* theorems), so the ILP optimum is the "
+                  "true minimum for every solver returning an optimal integral point (CBC contract); (2) a statement-faithful "
+                  "model of the Erdelyi-Lackner-Pfandler dynamic programme (incl. CPython set order; same output as the real "
+                  "function on 12 000+ profiles) with theorems that its answer is always a valid certificate "
+                  "(deletion_cert: removed = complement of the axis, restricted profile single-peaked on the axis); "
+                  "(3) verified certificate checkers and brute-force optima. Optimality of the dynamic programme and the "
+                  "solver contract are compared with the verified brute force on every run (tested, not proved)")
     level_note = ("Lean kernel + standard axioms for checkers/brute force; CBC through python-mip and the dynamic "
                   "programme are outside Lean; sizes kept below 20 alternatives so the 5% MIP gap cannot hide a unit")
     technique = "Lean-verified certificate checkers and brute-force optima; differential correspondence on optimum and certificate"
